@@ -21,10 +21,14 @@ CONSTANTS
   MaxSHeld = 0
   StartBeforeEmit = TRUE
   CmdFreshTicket = TRUE
+  TimeoutUsesRemove = FALSE
+  LstCode = "-"
 INVARIANT TypeOK
 INVARIANT DistinctTickets
 INVARIANT RegistryExact
 INVARIANT NoOverdue
+INVARIANT AllTold
+PROPERTY ReportedToEveryListener
 PROPERTY ResultIffLive
 PROPERTY RemovedOnceAtTimeout
 PROPERTY QuietAfterManualRemoval
